@@ -341,6 +341,11 @@ def jagged(v, J):
         if len(J) != len(v):
             raise IndexErr("boolean jagged index of the wrong length")
         return [e for e, k in zip(v, J) if k]
+    if len(J) > 0 and all(k is None or isinstance(k, bool) for k in J) and any(isinstance(k, bool) for k in J):
+        # a boolean mask with missing entries: True keeps the element, False drops it, None gives None
+        if len(J) != len(v):
+            raise IndexErr("boolean jagged index of the wrong length")
+        return [None if k is None else e for e, k in zip(v, J) if k is None or k]
     if all((k is None) or (isinstance(k, int) and not isinstance(k, bool)) for k in J):
         return [None if k is None else v[_wrapidx(k, len(v))] for k in J]
     if all(isinstance(k, list) or k is None for k in J):
